@@ -9,7 +9,7 @@ in `XPkt` (`lift`, `contOf`).  These lemmas show that the glue dispatches exactl
 controller itself emits and consumes (LLDP probes).
 -/
 namespace Pox.Packet
-open Pox Pox.Layout Pox.Checksum
+open Pox Pox.PktLayout Pox.Checksum
 
 /-- the EtherType demultiplexer over `XPkt` (ethernet.py:71-90, 123-130) -/
 def xEthNext (next : XNext) (t : Nat) (payload : Bytes) (allowLlc : Bool := true) : XPkt :=
